@@ -415,6 +415,25 @@ def _expression_like(fd):
     return True
 
 
+def _chooser_like(fd):
+    """a body that only chooses a value: ifs, returns, raises, assignments to plain local names"""
+    def ok(stmts):
+        for x in stmts:
+            if isinstance(x, (ast.Return, ast.Raise, ast.Pass)):
+                continue
+            if isinstance(x, ast.Expr) and isinstance(x.value, ast.Constant):
+                continue
+            if isinstance(x, ast.Assign) and all(isinstance(t_, ast.Name) for t_ in x.targets):
+                continue
+            if isinstance(x, ast.If):
+                if not ok(x.body) or not ok(x.orelse):
+                    return False
+                continue
+            return False
+        return True
+    return ok(fd.body)
+
+
 def _is_closure(fd):
     """defined inside another function (at any depth of its statements)"""
     p = getattr(fd, '_parent', None)
@@ -706,6 +725,18 @@ class SymExec(object):
             k = dotted_key(t)
             if k is not None and k in st.env:
                 return st.env[k]
+            if b == ('name', 'self') and self.inline and self.cls is not None and n.attr not in self.no_inline and n.attr not in self.watch_attrs:
+                # a read-only property of the class that only chooses (`@property def next_node: return self.a if c else self.b`)
+                pf = [s_ for s_ in self.cls.body if isinstance(s_, ast.FunctionDef) and s_.name == n.attr
+                      and any(src(d) == 'property' for d in s_.decorator_list)]
+                if len(pf) == 1 and pf[0] not in self._stack and _chooser_like(pf[0]) and \
+                        not any(isinstance(x, (ast.AugAssign,)) or (isinstance(x, ast.Assign) and any(isinstance(t_, (ast.Attribute, ast.Subscript)) for t_ in x.targets))
+                                for x in ast.walk(pf[0])):
+                    mark = len(st.events)
+                    r_ = self.inline_expr(pf[0], t, (), (), st, allow_raise=True)
+                    if r_ is not None:
+                        return r_
+                    del st.events[mark:]
             return t
         if isinstance(n, ast.Subscript):
             b = E(n.value)
@@ -1385,13 +1416,13 @@ class SymExec(object):
             return None
         return items
 
-    def inline_expr(self, fd, f, args, kws, st):
+    def inline_expr(self, fd, f, args, kws, st, allow_raise=False):
         """value of a call of helper `fd` as a term (branches become conditional terms); side effects are appended to the
         caller's event trace.  None when the body uses constructs that cannot be folded into an expression."""
         penv = self.bind_params(fd, f, args, kws, st)
         if penv is None:
             return None
-        if not _expression_like(fd) and not _loops_only(fd):
+        if not _expression_like(fd) and not _loops_only(fd) and not (allow_raise and _chooser_like(fd)):
             return None
         nested = _is_closure(fd)
         sub = State()
@@ -1405,6 +1436,8 @@ class SymExec(object):
                 s_ = stmts.pop(0)
                 if isinstance(s_, ast.Return):
                     return self.ev(s_.value, sub) if s_.value is not None else ('const', None)
+                if isinstance(s_, ast.Raise) and allow_raise:
+                    return ('sym', 'raises', src(s_.exc)[:60] if s_.exc is not None else '')
                 if isinstance(s_, ast.If):
                     c = self.ev(s_.test, sub)
                     if c[0] == 'const':
@@ -1494,7 +1527,7 @@ class SymExec(object):
                 return None
             if len(alts) > 12:
                 return None
-            fds = [(g, ft, self.resolve(ft, probe)) for g, ft in alts]
+            fds = [(g, ft, self.resolve(ft, probe) if ft[0] != 'sym' else None) for g, ft in alts]
             if not any(fd is not None and _forkable(fd) for _, _, fd in fds):
                 return None
             return self._fork_dispatch(fds, call_node, st)
@@ -1516,6 +1549,11 @@ class SymExec(object):
                 continue
             if ft[0] == 'sym' and ft[1] == 'key-error':
                 st2.exc = ('call', ('name', 'KeyError'), (), ())
+                st2.events.append(('raise', st2.exc, call_node))
+                yield st2, 'raise', None
+                continue
+            if ft[0] == 'sym' and ft[1] == 'raises':
+                st2.exc = ('sym', 'raised', ft[2])
                 st2.events.append(('raise', st2.exc, call_node))
                 yield st2, 'raise', None
                 continue
